@@ -143,6 +143,7 @@ def native_checks(run, seeds):
         got = ({str(k): v for k, v in p["process_noise"].items()}, p["sensor_noises"])
         if got != ({"a": 3.0, "b": 1e-06}, {"position": {"x": 7.0, "xv": 8.0}, "velocity": {"v": 9.0}}):
             problems.append(f"_inverse_flatten_scoring_params gave {got}")
+        problems += sklearn_native.flatten_round_trip_problems(seed)
         # the Config object an estimator was given may be shared (clones, grid searches): set_params must REPLACE it, never edit it
         shared = py.Config(innovation_filtering=4.0, max_dt_sec=0.05)
         pyS, uiS, estS, infoS = sklearn_native.simple_adapter(seed, 1, 1)
@@ -168,7 +169,7 @@ def native_checks(run, seeds):
         except Exception as e:
             if type(e).__name__ != "ModelConstructionError":
                 problems.append(f"unknown parameter raised {type(e).__name__}")
-        for ns, k, rows in ((1, 1, 6), (2, 1, 8), (1, 0, 6)):  # the last one: a model WITHOUT controls (process_noise == {})
+        for ns, k, rows in ((1, 1, 6), (2, 1, 8), (1, 0, 6), (3, 2, 8)):  # the last one: a model WITHOUT controls (process_noise == {})
             run.native_runs += 1
             pr, _ = sklearn_native.fit_problems(seed, rows, ns, k)
             problems += pr
